@@ -179,7 +179,8 @@ PROPS = {
     'C14': dict(
         rules=[sensor.sm_names, sensor.sm_count, sensor.sm_accum, sensor.sm_sign, sensor.sm_apply,
                sensor.sm_gate, sensor.sm_table, purity.rng_src, purity.rng_fwd, layout.corr_pair,
-               smmodel.sm_model, smmodel.sm_params, smmodel.sm_draw, layout.layout_state,
+               smmodel.sm_model, smmodel.sm_params, smmodel.sm_draw, sensor.sm_first_dt,
+               layout.layout_state,
                layout.layout_noise, layout.layout_prov, layout.assembly, layout.call_roles],
         decided=['the simulator\'s parameter table, executed for a covering family of masks: '
                  'exactly the columns of the non-nominal terms, named and valued as documented',
